@@ -410,6 +410,9 @@ def run(ctx, rep):
            ctx.loc(swallow[0]) if swallow else fw.loc, kind="site")
 
     K.share(ctx, rep, "c13", lambda o: o.rule in ("R13.1", "R13.4"), "R11.5", floor=6)
+    # whoever waits for a result learns how the connection ended (EOFError / its timeout): the pending result keeps the connection
+    # it waits on alive instead of letting the collector close it underneath
+    K.share(ctx, rep, "c15", lambda o: o.rule == "R15.1" and "holds its connection strongly" in o.key, "R11.5", floor=1)
 
     # ------------------------------------------------------------------ R11.6
     fp = ctx.func("rpyc.core.stream.Stream.poll")
